@@ -92,6 +92,14 @@ int main(int argc, char **argv) {
 
     if (!input) { usage(argv[0]); return 1; }
 
+    /* The program's argument vector starts at the program, as it does for a compiled
+     * executable (used by --run). */
+    static char *prog_argv[2];
+    prog_argv[0] = (char *)input;
+    prog_argv[1] = NULL;
+    g_argc = 1;
+    g_argv = prog_argv;
+
     /* Read source */
     char *source = read_file(input);
     if (!source) {
